@@ -481,6 +481,8 @@ int main() {
               auto rirt = r.insert(std::move(rnode));
               ret = std::string(irt.inserted ? "1" : "0") + ":" + (irt.node.empty() ? "empty" : std::to_string(val(irt.node.value())));
               if (irt.inserted != rirt.inserted || irt.node.empty() != rirt.node.empty()) oracle = "MISMATCH-node";
+              // `position` designates the inserted element, or the element that prevented the insertion
+              if (irt.position == s.end() || rirt.position == r.end() || val(*irt.position) != val(*rirt.position)) oracle = "MISMATCH-nodepos";
               if (!irt.node.empty()) S(d)->insert(std::move(irt.node));
               if (!rirt.node.empty()) R(d)->insert(std::move(rirt.node));
             } else {
